@@ -122,6 +122,16 @@ PROGRAMS = {
 # environments were created before
 PROGRAMS["deep"] = ("x" + "+(x" * 60 + ")" * 60, {"x": "int"})
 LITERAL_FAMILY = [p_ for p_ in PROGRAMS if p_.startswith("lit_")]
+# texts that coincide once layout / letter case / comments are normalised but are different programs: any cache of parse
+# results or compiled code keyed by a normalised source text conflates them
+PROGRAMS.update({
+    "lay_cmt_a": ("1 // one + 2", {}), "lay_cmt_b": ("1 // one\n+ 2", {}),
+    "lay_str_a": ('"a b" + "!"', {}), "lay_str_b": ('"a  b" + "!"', {}), "lay_str_c": ('"a\tb" + "!"', {}),
+    "lay_ml_a": ('"""a\nb""" + "!"', {}), "lay_ml_b": ('"""a b""" + "!"', {}),
+    "lay_case_a": ('"A" + "b"', {}), "lay_case_b": ('"a" + "B"', {}),
+    "lay_strip_a": ('" x" + "!"', {}), "lay_strip_b": ('"x " + "!"', {}),
+})
+LAYOUT_FAMILY = [p_ for p_ in PROGRAMS if p_.startswith("lay_")]
 
 
 def T(kind, text):
@@ -141,7 +151,7 @@ BINDINGS = {
     "cond": [{"x": T("bool", "true")}, {"x": T("int", "1")}, {"x": T("bool", "false")}, {"x": T("int", "0")}],
     "neg_in_list": [{"x": T("double", "0.0")}, {"x": T("double", "-0.0")}],
 }
-for _p in LITERAL_FAMILY:
+for _p in LITERAL_FAMILY + LAYOUT_FAMILY:
     BINDINGS[_p] = [{}]
 BINDINGS["deep"] = [{"x": 1}]
 
@@ -170,6 +180,11 @@ def histories(tier, rng):
         for a, b in itertools.permutations(LITERAL_FAMILY, 2):
             if a.split("_")[1] == b.split("_")[1]:
                 hs.append([(a, r, 0), (b, r, 0)])
+    # (2c') programs whose texts differ only in layout that is significant (comment ends, blanks inside literals): all ordered pairs per group
+    for r1, r2 in itertools.product(runners, repeat=2):
+        for a, b in itertools.permutations(LAYOUT_FAMILY, 2):
+            if a.split("_")[1] == b.split("_")[1] and (r1 == r2 or a < b):
+                hs.append([(a, r1, 0), (b, r2, 0)])
     # (2d) the deep program after an environment of either runner class was created and used
     for r1, r2 in itertools.product(runners, repeat=2):
         hs.append([("sum", r1, 0), ("deep", r2, 0)])
